@@ -380,3 +380,19 @@ VARIANTS += [
  dict(name='hoisted-tsa-test-on-other-type', file=T, expect='flagged(entry/tsa-roots)', find=TSA_IF_OLD, replace='\t\tif rootsOnly {\n',
       edits=[(T, LOOP_HEAD, '\trootsOnly := storeType == TypeSigningAuthority\n' + LOOP_HEAD)]),
 ]
+
+# round-4 seed C03-6: an iteration of the per-certificate loop must not end in success
+CA_OLD = '\t\tif !cert.IsCA {\n\t\t\tif err := cert.CheckSignature(cert.SignatureAlgorithm, cert.RawTBSCertificate, cert.Signature); err != nil {\n\t\t\t\treturn fmt.Errorf(\n\t\t\t\t\t"certificate with subject %q is not a CA certificate or self-signed signing certificate",\n\t\t\t\t\tcert.Subject,\n\t\t\t\t)\n\t\t\t}\n\t\t}\n'
+def ca_guard(word):
+    return ('\t\tif cert.IsCA {\n\t\t\t' + word + '\n\t\t}\n\t\tif err := cert.CheckSignature(cert.SignatureAlgorithm, cert.RawTBSCertificate, cert.Signature); err != nil {\n'
+            '\t\t\treturn fmt.Errorf("certificate with subject %q is not a CA certificate or self-signed signing certificate", cert.Subject)\n\t\t}\n')
+VARIANTS += [
+ dict(name='ca-guard-clause-returns-success-at-first-ca', file=T, expect='flagged(entry/ca-or-self-signed)', find=CA_OLD, replace=ca_guard('return nil')),
+ dict(name='ca-guard-clause-breaks-at-first-ca', file=T, expect='flagged(entry/ca-or-self-signed)', find=CA_OLD, replace=ca_guard('break')),
+ dict(name='benign-ca-guard-clause-continue', file=T, expect='silent', find=CA_OLD, replace=ca_guard('continue')),
+ dict(name='self-signed-leaf-ends-the-scan', file=T, expect='flagged(entry/ca-or-self-signed)', find=CA_OLD,
+      replace='\t\tif !cert.IsCA {\n\t\t\tif err := cert.CheckSignature(cert.SignatureAlgorithm, cert.RawTBSCertificate, cert.Signature); err != nil {\n\t\t\t\treturn fmt.Errorf("certificate with subject %q is not a CA certificate or self-signed signing certificate", cert.Subject)\n\t\t\t}\n\t\t\treturn nil\n\t\t}\n'),
+ dict(name='tsa-root-scan-stops-after-first-root', file=T, expect='flagged(entry/tsa-roots)',
+      find='\t\t\t\tif err := isRootCACertificate(cert); err != nil {\n\t\t\t\t\treturn nil, CertificateError{InnerError: err, Msg: fmt.Sprintf("trusted certificate %s in trust store %s of type %s is invalid: %v", certFileName, namedStore, storeType, err.Error())}\n\t\t\t\t}\n',
+      replace='\t\t\t\tif err := isRootCACertificate(cert); err != nil {\n\t\t\t\t\treturn nil, CertificateError{InnerError: err, Msg: fmt.Sprintf("trusted certificate %s in trust store %s of type %s is invalid: %v", certFileName, namedStore, storeType, err.Error())}\n\t\t\t\t}\n\t\t\t\tbreak\n'),
+]
